@@ -315,6 +315,9 @@ var (
 	reChildM  = regexp.MustCompile(`(?:^|[^o])json\.Marshal\(x\.(\w+)\)`)
 	reChildG  = regexp.MustCompile(`:= x\.Get(\w+)\(\)`)
 	reChildP  = regexp.MustCompile(`protojson\.Marshal\(x\.(\w+)\)`)
+	reAliasX  = regexp.MustCompile(`\b(\w+) := x\.(\w+)(?:;| |$)`)
+	reChildMA = regexp.MustCompile(`(?:^|[^o])json\.Marshal\((\w+)\)`)
+	reChildPA = regexp.MustCompile(`protojson\.Marshal\((\w+)\)`)
 	reDynamic = regexp.MustCompile(`raw\[(?:"([^"]*)" \+ )?(\w+)\] = \w+`)
 )
 
@@ -332,6 +335,7 @@ func goEncoderKeys(msg *VStruct, u *Unit) (map[string]bool, []string) {
 	}
 	var notes []string
 	in := false
+	aliasOf := map[string]string{}
 	child := ""
 	viaStd := false // the child's bytes come from encoding/json (struct tags) rather than protojson / its own codec
 	for _, l := range u.Lines {
@@ -343,11 +347,21 @@ func goEncoderKeys(msg *VStruct, u *Unit) (map[string]bool, []string) {
 		if !in {
 			continue
 		}
+		// a local bound to a field of the receiver stands for that field (`if child := x.F; child != nil {`)
+		if m := reAliasX.FindStringSubmatch(t); m != nil {
+			aliasOf[m[1]] = m[2]
+		}
 		if m := reChildM.FindStringSubmatch(t); m != nil {
 			child, viaStd = m[1], true
 		}
 		if m := reChildP.FindStringSubmatch(t); m != nil {
 			child, viaStd = m[1], false
+		}
+		if m := reChildMA.FindStringSubmatch(t); m != nil && aliasOf[m[1]] != "" {
+			child, viaStd = aliasOf[m[1]], true
+		}
+		if m := reChildPA.FindStringSubmatch(t); m != nil && aliasOf[m[1]] != "" {
+			child, viaStd = aliasOf[m[1]], false
 		}
 		if m := reChildG.FindStringSubmatch(t); m != nil {
 			child, viaStd = m[1], false
